@@ -218,6 +218,43 @@ C15_IterMeetsSpec ==
      /\ IterInScope(UU, S(pre[ev.r].ents), S(pre[ev.r].heads), IterOpts)
   => IterMeetsSpec(UU, Fn, S(pre[ev.r].ents), S(pre[ev.r].heads), IterOpts, IterRes)
 
+\* C17: the store is causally closed after every write, what a call returns is already stored,
+\* and every handle loads - from the store as it was when the handle was returned - to the state
+\* the replica had at that moment
+WritesBefore(w) == {x.id : x \in {y \in S(ev.writes) : y.seq < w.seq /\ y.kind = "entry"}}
+C17_StoreClosed ==
+  [][IsStep => \A w \in S(ev.writes) :
+        LET have == S(ev.stored) \cup WritesBefore(w) IN
+        /\ w.kind = "entry" => (S(UU[w.id].next) \cup S(UU[w.id].refs)) \subseteq have /\ S(w.links) \subseteq have
+        /\ w.kind = "manifest" => S(w.links) \subseteq have /\ S(w.links) = S(pre[ev.r].heads)]_vars
+C17_WrittenBeforeReturned ==
+  [][IsStep /\ ev.op \in {"A", "P"} /\ ev.err = "" => ev.retstored]_vars
+C17_Recoverable ==
+  [][IsStep => \A rc \in S(ev.recov) :
+        LET o == post[rc.r] IN
+        o.pure =>
+          /\ rc.err = ""
+          /\ S(rc.ents) = S(o.ents) /\ NoDup(rc.ents)
+          /\ S(rc.heads) = S(o.heads)
+          /\ rc.lid = o.lid
+          /\ StrictOn(UU, Fn, S(o.ents)) => rc.values = o.values]_vars
+\* an empty log cannot be published; a non-empty one can
+C17_PublishResult ==
+  [][IsStep /\ ev.op = "P" => ((ev.err = "") = (pre[ev.r].heads # <<>>)) /\ post = pre]_vars
+
+\* C18: with a link key a stored entry block reveals no link
+C18_NoClearLinks ==
+  [][IsStep => \A w \in S(ev.writes) : w.audited => w.clear = <<>> /\ w.links = <<>>]_vars
+C18_SameKeyRecovers ==
+  [][IsStep => \A w \in S(ev.writes) : w.audited =>
+        ~w.same.err /\ w.same.next = UU[w.id].next /\ w.same.refs = UU[w.id].refs /\ w.same.verify]_vars
+C18_OtherKeyGetsNothing ==
+  [][IsStep => \A w \in S(ev.writes) : w.audited =>
+        /\ w.nokey.err \/ (w.nokey.next = <<>> /\ w.nokey.refs = <<>>)
+        /\ w.other.err \/ (w.other.next = <<>> /\ w.other.refs = <<>>)]_vars
+\* the audit is not vacuous: entries with links were written
+C18_AuditedSomething == [][IsStep /\ ev.op = "A" /\ ev.err = "" => \E w \in S(ev.writes) : w.audited]_vars
+
 -----------------------------------------------------------------------------
 (* Layer M - the observed transition is the specification's transition     *)
 M_Values ==
